@@ -29,11 +29,11 @@ def kernel_key(fam, mode, backend):
     return f"{rel}::_stats_{fam}_{mode}{suf}"
 
 
-def kernel_args(fam, mode, chans=("x1", "x2")):
+def kernel_args(fam, mode, chans=("x1", "x2"), p1=None):
     a = [ArrParam(chans[0])]
     if mode == "csd": a.append(ArrParam(chans[1]))
     a += [ArrParam("starts"), X.var("L"), ArrParam("w", shape=(X.var("L"),)), X.var("omega")]
-    if fam == "poly": a.append(ArrParam("Q", 2, shape=(X.var("L"), None)))
+    if fam == "poly": a.append(ArrParam("Q", 2, shape=(X.var("L"), None if p1 is None else X.const(p1))))
     return a
 
 
@@ -189,9 +189,9 @@ class KernelEval:
         s.I = Interp(repo)
         s.cache = {}
 
-    def evaluate(s, fam, mode, backend, chans=("x1", "x2"), chunk=None):
+    def evaluate(s, fam, mode, backend, chans=("x1", "x2"), chunk=None, p1=None):
         key = kernel_key(fam, mode, backend)
-        ck = (key, chans, chunk)
+        ck = (key, chans, chunk, p1)
         if ck in s.cache: return s.cache[ck]
         if not s.repo.has(key):
             raise AnalysisError(f"kernel {key} not found")
@@ -199,7 +199,7 @@ class KernelEval:
         from . import loops as _loops
         _loops.STRICT_RECURRENCES[0] = True
         try:
-            r = s.I.call_key(key, kernel_args(fam, mode, chans), {} if chunk is None else {"_chunk": X.const(chunk)}, st)
+            r = s.I.call_key(key, kernel_args(fam, mode, chans, p1), {} if chunk is None else {"_chunk": X.const(chunk)}, st)
         except Unknown as ex:
             r = Opaque(f"interpreter: {ex}")
         finally:
@@ -212,6 +212,10 @@ class KernelEval:
         val, _ = s.evaluate(fam, mode, backend, chans, chunk=chunk)
         if p1 is not None: val = subst_val(val, {"Q.shape1": X.const(p1)})
         leaf, und = leaf_for_K(val, k)
+        if (und or is_opaque(leaf) or (isinstance(leaf, tuple) and any(is_opaque(e) for e in leaf))) and fam == "poly" and p1 is not None:
+            # with a symbolic basis width a per-column case split (if p1 > 1: ...) stays undecided: interpret the kernel again for this concrete width
+            val2, _ = s.evaluate(fam, mode, backend, chans, chunk=chunk, p1=p1)
+            leaf, und = leaf_for_K(val2, k)
         if und: return Opaque(f"branch condition not on the segment count: {und[0]}")
         if is_opaque(leaf): return leaf
         if not isinstance(leaf, tuple) or len(leaf) != 5: return Opaque("kernel does not return a 5-tuple")
@@ -265,11 +269,13 @@ def _check_kernel(ctx, KE, fam, mode, backend, outputs=OUT, rule="R3-statistics"
         # multi-chunk behaviour (K > _chunk, out of reach of any test) is compared with the definition as well
         chunked, _ = KE.evaluate(fam, mode, backend, chunk=2)
 
-    def width_variants():
+    def width_variants(reeval=False):
         out = []
         for p1 in (2, 3):
             mp = {"Q.shape1": X.const(p1)}
-            out.append((p1, subst_val(val0, mp), {rg: tuple(x.subst(mp) for x in tup) for rg, tup in ref0.items()}))
+            # reeval: interpret the kernel again with a basis of exactly p1 columns (per-column case splits and stores then resolve)
+            v_ = KE.evaluate(fam, mode, backend, p1=p1)[0] if reeval else subst_val(val0, mp)
+            out.append((p1, v_, {rg: tuple(x.subst(mp) for x in tup) for rg, tup in ref0.items()}))
         return out
     # the detrend basis comes from _build_Q(L, order), order in {1,2}: it has 2 or 3 columns.  A kernel that branches on the width is
     # instantiated for both; otherwise the width stays symbolic and is instantiated only if the symbolic comparison is inconclusive
@@ -311,6 +317,8 @@ def _check_kernel(ctx, KE, fam, mode, backend, outputs=OUT, rule="R3-statistics"
         status, detail, lhs, rhs = decide(oi, name, base_variants)
         if status == UNKNOWN and fam == "poly" and base_variants[0][0] is None and "agree numerically" in detail:
             status, detail, lhs, rhs = decide(oi, name, width_variants())
+        elif status == UNKNOWN and fam == "poly" and "agree numerically" not in detail:
+            status, detail, lhs, rhs = decide(oi, name, width_variants(reeval=True))
         if status != VIOLATED and chunked is not None:
             k = kmax
 
